@@ -234,6 +234,36 @@ def run(tier='quick', repo=None):
     rep.add('R-xfer-event', 'uprobe_xfer_throw', VIOLATED if badx else HOLDS, fx.loc,
             **({'what': 'after the event was found in the transfer list (found->xfer_event consulted) uprobe_throw_next() is still reachable (line %s): '
                         'the application\'s probes then run in the worker thread' % badx[0][1][2].get('l')} if badx else {}))
+    rep.rule('R-va-copy', 'in the units of the queue / transfer / worker machinery (and the probes that forward events between threads): a copy made with '
+             'va_copy is read (va_arg on it, or passed on) before its va_end - a copy that is never read means the peek was done on the original list, '
+             'which is then handed on with arguments missing: the event forwarded to the application carries the wrong value')
+    ncopy = 0
+    for uname_, u_ in sorted(prog.units.items()):
+        for f_ in sorted(u_.funcs.values(), key=lambda f: f.name):
+            if not f_.blocks or not f_.inmain:
+                continue
+            for _, _, c_ in f_.nodes():
+                if c_.get('k') != 'call' or c_.get('fn') != '__builtin_va_copy' or len(c_.get('args', [])) < 2:
+                    continue
+                d_ = strip_all_casts(f_.resolve(c_['args'][0]))
+                if not (isinstance(d_, dict) and d_.get('k') == 'ref'):
+                    continue
+                nm_ = d_['n']
+                ncopy += 1
+                used = False
+                for _, _, x_ in f_.nodes():
+                    if x_ is c_:
+                        continue
+                    if x_.get('k') == 'va_arg' and any(y.get('k') == 'ref' and y.get('n') == nm_ for y in walk(x_['e'])):
+                        used = True
+                    if x_.get('k') == 'call' and x_.get('fn') != '__builtin_va_end' and x_ is not c_ and any(
+                            y.get('k') == 'ref' and y.get('n') == nm_ for a_ in (x_.get('args', [])[1:] if x_.get('fn') == '__builtin_va_copy' else x_.get('args', [])) for y in walk(a_)):
+                        used = True
+                rep.add('R-va-copy', '%s:%s' % (f_.name, nm_), HOLDS if used else VIOLATED, '%s:%s' % (f_.file, c_.get('l')),
+                        **({} if used else {'what': '%s copies its argument list into %s (line %s) and never reads the copy: the arguments are taken from the original '
+                                                    'list instead, which is passed on with those arguments consumed' % (f_.name, nm_, c_.get('l'))}))
+    if ncopy < 5:
+        raise facts.AnalysisBroken('R-va-copy found only %d va_copy sites' % ncopy)
     rep.rule('R-freeze-nest', 'uprobe_pthread_upump_mgr_throw: the per-thread frozen state is a nesting counter - incremented on FREEZE, decremented on THAW, '
              'never assigned - so that a freeze / thaw pair inside another (a worker allocated while the application froze the probe) does not thaw the outer one')
     up = prog.units.get('lib/upipe-pthread/uprobe_pthread_upump_mgr.c')
